@@ -515,6 +515,52 @@ func runC06(c *core.Ctx) {
 					fs = append(fs, f)
 				}
 			}
+			if r.Chance(1, 6) {
+				// neighbouring frames of one sender that belong together by content: a full report (31
+				// blocks) followed by further receiver reports of the same sender (how a receiver with more
+				// than 31 sources reports), two feedback packets of one type for one media source. Each
+				// frame is still one packet.
+				x := r.B32()
+				var vs []rtcp.Packet
+				switch r.Intn(3) {
+				case 0:
+					first := &rtcp.ReceiverReport{SSRC: x}
+					for i := 0; i < r.Pick(31, 31, 30); i++ {
+						first.Reports = append(first.Reports, gen.Report(r))
+					}
+					vs = append(vs, first)
+					for i := 1 + r.Intn(2); i > 0; i-- {
+						rr := &rtcp.ReceiverReport{SSRC: x}
+						for j := r.Intn(4); j >= 0; j-- {
+							rr.Reports = append(rr.Reports, gen.Report(r))
+						}
+						vs = append(vs, rr)
+					}
+				case 1:
+					sr := &rtcp.SenderReport{SSRC: x, NTPTime: r.U64(), RTPTime: r.U32()}
+					for i := 0; i < 31; i++ {
+						sr.Reports = append(sr.Reports, gen.Report(r))
+					}
+					vs = append(vs, sr, &rtcp.ReceiverReport{SSRC: x, Reports: []rtcp.ReceptionReport{gen.Report(r)}})
+				default:
+					k := []gen.Kind{gen.NACK, gen.PLI, gen.FIR, gen.REMB, gen.CCFB, gen.BYE, gen.SDES}[r.Intn(7)]
+					a, b := gen.Packet(r, k, gen.Opts{Small: true, NoBig: true}), gen.Packet(r, k, gen.Opts{Small: true, NoBig: true})
+					vs = append(vs, a, b)
+				}
+				pos := r.Intn(len(fs) + 1)
+				var ins []frame
+				for _, v := range vs {
+					if src == "own-marshal" {
+						if b, err, pan := gMarshal(v); err == nil && pan == "" && len(b) >= 4 {
+							ins = append(ins, frame{gen.KindOf(v), b, v})
+						}
+					} else if e, err := ref.Encode(v, ref.Lib); err == nil {
+						ins = append(ins, frame{gen.KindOf(v), e.B, v})
+					}
+				}
+				fs = append(fs[:pos:pos], append(ins, fs[pos:]...)...)
+				cs.Count("datagram/with-related-neighbours")
+			}
 			c06Datagram(cs, fs, src)
 		})
 	}
